@@ -7,8 +7,99 @@ use multiboot2_common::test_utils::DummyTestHeader;
 use multiboot2_common::{DynSizedStructure, Header, MemoryError};
 use multiboot2_header::{HeaderTagHeader, Multiboot2BasicHeader};
 
+/// error kinds, variant names of TagType / MemoryAreaType / ElfSectionType are rendered by explicit matches, never
+/// through Debug or Display (their texts are no part of any property)
 pub fn mem_err(e: MemoryError) -> String {
-    format!("ERR {:?}", e)
+    format!(
+        "ERR {}",
+        match e {
+            MemoryError::Null => "Null",
+            MemoryError::WrongAlignment => "WrongAlignment",
+            MemoryError::ShorterThanHeader => "ShorterThanHeader",
+            MemoryError::MissingPadding => "MissingPadding",
+            MemoryError::InvalidReportedTotalSize => "InvalidReportedTotalSize",
+        }
+    )
+}
+
+pub fn tt_name(t: TagType) -> String {
+    match t {
+        TagType::End => "End".into(),
+        TagType::Cmdline => "Cmdline".into(),
+        TagType::BootLoaderName => "BootLoaderName".into(),
+        TagType::Module => "Module".into(),
+        TagType::BasicMeminfo => "BasicMeminfo".into(),
+        TagType::Bootdev => "Bootdev".into(),
+        TagType::Mmap => "Mmap".into(),
+        TagType::Vbe => "Vbe".into(),
+        TagType::Framebuffer => "Framebuffer".into(),
+        TagType::ElfSections => "ElfSections".into(),
+        TagType::Apm => "Apm".into(),
+        TagType::Efi32 => "Efi32".into(),
+        TagType::Efi64 => "Efi64".into(),
+        TagType::Smbios => "Smbios".into(),
+        TagType::AcpiV1 => "AcpiV1".into(),
+        TagType::AcpiV2 => "AcpiV2".into(),
+        TagType::Network => "Network".into(),
+        TagType::EfiMmap => "EfiMmap".into(),
+        TagType::EfiBs => "EfiBs".into(),
+        TagType::Efi32Ih => "Efi32Ih".into(),
+        TagType::Efi64Ih => "Efi64Ih".into(),
+        TagType::LoadBaseAddr => "LoadBaseAddr".into(),
+        TagType::Custom(c) => format!("Custom({})", c),
+    }
+}
+
+pub fn area_name(t: MemoryAreaType) -> String {
+    match t {
+        MemoryAreaType::Available => "Available".into(),
+        MemoryAreaType::Reserved => "Reserved".into(),
+        MemoryAreaType::AcpiAvailable => "AcpiAvailable".into(),
+        MemoryAreaType::ReservedHibernate => "ReservedHibernate".into(),
+        MemoryAreaType::Defective => "Defective".into(),
+        MemoryAreaType::Custom(c) => format!("Custom({})", c),
+    }
+}
+
+pub fn elf_type_name(t: multiboot2::ElfSectionType) -> &'static str {
+    use multiboot2::ElfSectionType::*;
+    match t {
+        Unused => "Unused",
+        ProgramSection => "ProgramSection",
+        LinkerSymbolTable => "LinkerSymbolTable",
+        StringTable => "StringTable",
+        RelaRelocation => "RelaRelocation",
+        SymbolHashTable => "SymbolHashTable",
+        DynamicLinkingTable => "DynamicLinkingTable",
+        Note => "Note",
+        Uninitialized => "Uninitialized",
+        RelRelocation => "RelRelocation",
+        Reserved => "Reserved",
+        DynamicLoaderSymbolTable => "DynamicLoaderSymbolTable",
+        EnvironmentSpecific => "EnvironmentSpecific",
+        ProcessorSpecific => "ProcessorSpecific",
+    }
+}
+
+/// the last integer (decimal or 0x-hex) in a text: the byte an UnknownFramebufferType error carries is reachable
+/// through Display/Debug only
+pub fn last_number(s: &str) -> String {
+    let b = s.as_bytes();
+    let mut end = b.len();
+    while end > 0 && !b[end - 1].is_ascii_hexdigit() {
+        end -= 1;
+    }
+    let mut start = end;
+    while start > 0 && b[start - 1].is_ascii_hexdigit() {
+        start -= 1;
+    }
+    let tok = &s[start..end];
+    let hex = start >= 2 && (&s[start - 2..start] == "0x" || &s[start - 2..start] == "0X");
+    let tok2 = if !hex && tok.starts_with("0x") { &tok[2..] } else { tok };
+    match if hex || tok.chars().any(|c| c.is_ascii_alphabetic()) { u64::from_str_radix(tok2, 16) } else { tok2.parse::<u64>() } {
+        Ok(v) => format!("{}", v),
+        Err(_) => "?".to_string(),
+    }
 }
 
 fn c14<H: Header>(ctx: &mut Ctx, a: usize, bytes: &[u8]) {
@@ -65,16 +156,16 @@ pub fn run(ctx: &mut Ctx, dom: &str, a: &[Arg]) {
         "conv" => {
             let x = a[0].n() as u32;
             let tt = TagType::from(x);
-            ctx.ln("tt", format!("{:?}", tt));
+            ctx.ln("tt", tt_name(tt));
             ctx.ln("tt_back", format!("{}", u32::from(tt)));
             ctx.ln("tt_val", format!("{}", tt.val()));
             ctx.ln("id_new", format!("{}", u32::from(TagTypeId::new(x))));
-            ctx.ln("id_dbg", format!("{:?}", TagTypeId::new(x)));
+            ctx.ln("id_dbg", if guard(|| format!("{:?}", TagTypeId::new(x))).is_ok() { "VAL" } else { "PANIC" });
             ctx.ln("id_back", format!("{}", u32::from(TagTypeId::from(x))));
-            ctx.ln("tt_via_id", format!("{:?}", TagType::from(TagTypeId::from(x))));
+            ctx.ln("tt_via_id", tt_name(TagType::from(TagTypeId::from(x))));
             ctx.ln("id_via_tt", format!("{}", u32::from(TagTypeId::from(TagType::from(x)))));
             let at = MemoryAreaType::from(MemoryAreaTypeId::from(x));
-            ctx.ln("area", format!("{:?}", at));
+            ctx.ln("area", area_name(at));
             ctx.ln("area_back", format!("{}", u32::from(MemoryAreaTypeId::from(at))));
         }
         "conveq" => {
@@ -151,7 +242,7 @@ pub fn run(ctx: &mut Ctx, dom: &str, a: &[Arg]) {
                 let d = DynSizedStructure::<TagHeader>::ref_from_slice(g.slice()).unwrap();
                 let t = d.cast::<ElfSectionsTag>();
                 match t.sections().next() {
-                    Some(s) => format!("{:?}", s.section_type()),
+                    Some(s) => elf_type_name(s.section_type()).to_string(),
                     None => "Unused".to_string(),
                 }
             });
@@ -174,8 +265,7 @@ pub fn run(ctx: &mut Ctx, dom: &str, a: &[Arg]) {
                     Ok(multiboot2::FramebufferType::RGB { .. }) => "VAL RGB".to_string(),
                     Ok(multiboot2::FramebufferType::Text) => "VAL Text".to_string(),
                     Err(e) => {
-                        let s = format!("{}", e);
-                        format!("ERR UnknownFb({})", s.rsplit(' ').next().unwrap())
+                        format!("ERR UnknownFb({})", last_number(&format!("{}", e)))
                     }
                 }
             });
